@@ -29,7 +29,7 @@ pub fn def() -> PropDef {
     gen,
     check,
     panic_policy: PanicPolicy::Violation,
-    rule: "exhaustive small scope first: every rope built by from_iter / new+add / from+add over <=3 (quick) / <=4 (thorough) pieces from {\"\", \"a\", \"\\n\", \"é\", \"b\\n\", \"→c\", \"😀\"} and every append of two such ropes of <=2 pieces; for each: all unary observers, get_byte(i) for every i, get_byte_slice for every (start,end) pair incl. reversed / out of bounds / non-boundary, every valid slice and every lines() element re-observed (derivation depth 2 for slices), binary observers against every differently chunked prefix / equal / unequal rope; then random longer programs (add/append/slice/line nesting to depth 6); non-trivial = rope has >= 2 pieces and a multi-byte or empty piece; distinct = program fingerprint",
+    rule: "exhaustive small scope first: every rope built by from_iter / new+add / from+add over <=3 (quick) / <=4 (thorough) pieces from {\"\", \"a\", \"\\n\", \"é\", \"b\\n\", \"→c\", \"😀\"} and every append of two such ropes of <=2 pieces; for each: all unary observers, get_byte(i) for every i, get_byte_slice for every (start,end) pair incl. reversed / out of bounds / non-boundary and in every start/end bound kind (a..=b, ..=b, excluded start, unbounded; endpoints up to usize::MAX), every valid slice and every lines() element re-observed (derivation depth 2 for slices), binary observers (starts_with, ==, both str impls) against every differently chunked prefix / equal / unequal rope incl. same-length partners that differ in one character or only in character structure; then random longer programs (add/append/slice/line nesting to depth 6); non-trivial = rope has >= 2 pieces and a multi-byte or empty piece; distinct = program fingerprint",
     cases: |t| match t {
       Tier::Quick => 60_000,
       Tier::Thorough => 600_000,
